@@ -906,4 +906,4 @@ pub fn run(rep: &Report) {
     rep.floor("machine switches in interleavings", rep.counter("machine switches in interleavings"), 10_000);
 }
 
-pub const RULE: &str = "(a) a corpus of programs - valid structured programs with output, 2-6 simultaneously undefined labels in shuffled order, several syntax errors, undefined labels plus missing start / duplicate definitions, console-input services with scripted stdin, stepping with prompt scripts, run-time errors - each run 8 times in separate processes: stdout (hook records included, i.e. the executed trace and every intermediate machine state) and exit status must be byte-identical; (b) two random instruction streams (all 13 instruction classes, 10% rejected lines, hostile initial registers, sparse memory patterns) executed interleaved at random on two machines sharing one Interpreter object must each end exactly (per-step outcomes, registers, digest of the full 1 MiB, call stack) as the same stream alone on fresh objects; Preprocessor / DataParser / Interpreter objects that first processed other valid and invalid inputs must answer probes exactly like fresh objects (full outputs, label maps, source maps, error texts), the print reader likewise through the prompt; (c) a new machine after arbitrary activity has all 14 registers and all 2^20 bytes zero except FLAGS=F000h, CS=FFFFh; (d) 16 threads with private machines sharing one Interpreter equal the sequential runs. Distinct = (class, output digest bucket) for (a), initial-state pairs for (b), probe kinds. Undefined labels also behind 257..5000 forward references, the first two coming out of one macro use.";
+pub const RULE: &str = "(a) a corpus of programs - valid structured programs with output, 2-6 simultaneously undefined labels in shuffled order, several syntax errors, undefined labels plus missing start / duplicate definitions, console-input services with scripted stdin, stepping with prompt scripts, run-time errors - each run 8 times in separate processes: stdout (hook records included, i.e. the executed trace and every intermediate machine state) and exit status must be byte-identical; (b) two random instruction streams (all 13 instruction classes, 10% rejected lines, hostile initial registers, sparse memory patterns) executed interleaved at random on two machines sharing one Interpreter object must each end exactly (per-step outcomes, registers, digest of the full 1 MiB, call stack) as the same stream alone on fresh objects; Preprocessor / DataParser / Interpreter objects that first processed other valid and invalid inputs must answer probes exactly like fresh objects (full outputs, label maps, source maps, error texts), the print reader likewise through the prompt; (c) a new machine after arbitrary activity has all 14 registers and all 2^20 bytes zero except FLAGS=F000h, CS=FFFFh; (d) 16 threads with private machines sharing one Interpreter equal the sequential runs. Distinct = (class, output digest bucket) for (a), initial-state pairs for (b), probe kinds. Undefined labels also behind 257..5000 forward references, the first two coming out of one macro use. Context reuse: a context that went through 1-4 other programs (11 refused ones: recursion, unknown macro, invalid expansion at depth 1 and 2, chains of 129/130/140, size overflow, position ties, refusal after definitions; accepted noise) and was clear()ed must answer probes (reusing the same names) exactly like a fresh one. Piecewise: generated programs fed to one context piece by piece (data lines, macro definitions, whole procedures, single statements) with refused pieces in between (15 kinds) must end up with the code, data, labels and procedures of the same program fed at once.";
